@@ -1471,7 +1471,7 @@ fn main() {
     let sizes: Vec<usize> = spaces.iter().map(|s| s.size()).collect();
     let total: usize = sizes.iter().sum();
     let limit: Option<usize> = std::env::var("C10_LIMIT").ok().and_then(|s| s.parse().ok());
-    let budget_s: f64 = std::env::var("C10_BUDGET_S").ok().and_then(|s| s.parse().ok()).unwrap_or(args.tier.pick(50.0, 1500.0));
+    let budget_s: f64 = std::env::var("C10_BUDGET_S").ok().and_then(|s| s.parse().ok()).unwrap_or(args.tier.pick(150.0, 1500.0) * vcore::budget_scale());
     let total_cases = limit.map(|n| n.min(total)).unwrap_or(total);
     let locate = |mut i: usize| -> (usize, usize) {
         for (si, sz) in sizes.iter().enumerate() {
